@@ -33,11 +33,11 @@ OBS_NOTE = 'Trusts the harness model of the documented semantics (harness/src/en
 THR_TECH = 'schedule exploration + randomized concurrency testing: stateless DFS over release orders at instrumented pause points (directed), proptest-generated thread programs run free on real threads; verdicts from recorded histories (Wing-Gong linearizability, guard intervals, ready-implies-flagged, end <=> no owner survived)'
 THR_NOTE = 'Schedule control exists only at the six __verif_hooks pause points and at operation boundaries; between them the OS schedules. A thread not reaching a pause point within 15 ms is presumed blocked on a lock (affects which schedule is explored, never a verdict). Free-running rounds are not reproducible from the seed; the recorded history is saved and re-judged on replay.'
 T.update({
- 'C01': ('obs', OBS_TECH, 'Every public entry point of the sync flavour (all setters on Observable, SharedObservable clones and write guards; subscribe/reset/clone variants; get/read/next_now/next_ref_now; Stream, Next and next_ref polls) in generated histories of up to 30 calls; every return value and poll result is compared with the model after every call. 400k histories quick / 6M thorough.', OBS_NOTE, 'DESIGN.md section 5, C01'),
+ 'C01': ('obs', OBS_TECH, 'Every public entry point of the sync flavour (all setters on Observable, SharedObservable clones and write guards; subscribe/reset/clone variants; get/read/next_now/next_ref_now; Stream, Next and next_ref polls) in generated histories of up to 30 calls; every return value and poll result is compared with the model after every call. 400k histories quick / 6M thorough. Also the async-lock guard engine (rules tagged C01) and 2,000 free-running thread programs x 60 executions (fresh-subscriber, duplicate-value and real-time Pending rules).', OBS_NOTE, 'DESIGN.md section 5, C01'),
  'C02': ('obs+thr', OBS_TECH + ' | ' + THR_TECH, 'Single-threaded: after every notifying update or closing drop the latest Pending waker of every pending subscriber must have fired, and no poll is ready without it. Threads: all release orders of poller/writer/dropper programs at the poll_update/close pause points, generated directed programs, and free-running rounds, all judged by "ready implies flagged".', THR_NOTE, 'DESIGN.md section 5, C02'),
  'C03': ('obs+thr', OBS_TECH + ' | ' + THR_TECH, 'Single-threaded handle histories (clone/drop/downgrade/upgrade/into_shared) against the owner-count model; threads: every release order of 2-3 threads dropping / upgrading the last handles at shared_drop:decided and upgrade:between (complete schedule spaces of 8 programs), plus generated programs: stream ended <=> no owner survived.', THR_NOTE, 'DESIGN.md section 5, C03'),
- 'C04': ('thr+obs', THR_TECH, 'Recorded invocation/response histories of 2-4 real threads (set, set_if_not_eq, update, get, read/write guard sections, next_now, polls, drops, upgrades) are checked for linearizability against a sequential register ending on the final value, for guard-interval exclusion and intra-guard stability; plus single-threaded try_read/try_write refusal while guards are held.', THR_NOTE, 'DESIGN.md section 5, C04'),
- 'C16': ('obs+async', OBS_TECH + '; differential testing between flavours; hand-rolled executor for histories with guards held across calls', 'The same generated guard-free histories run on both flavours and must give identical transcripts (and equal the model); async-only histories run every async fn as a task of a single-threaded executor under a lock model: nothing completes under a write guard, no writer under a read guard, results equal the model in completion order, and nothing stays pending once no guard is held.', OBS_NOTE + ' The executor runs every woken task before judging anything stuck (tokio hands permits to queued waiters).', 'DESIGN.md section 5, C16'),
+ 'C04': ('thr+obs', THR_TECH, 'Recorded invocation/response histories of 2-4 real threads (set, set_if_not_eq, update, get, read/write guard sections, next_now, polls, drops, upgrades) are checked for linearizability against a sequential register ending on the final value, for guard-interval exclusion and intra-guard stability; plus a real-time rule (a write completed between two events of a subscriber makes a Pending poll at the second a violation), three stress programs (2,500 write/poll pairs against handle churn, 200 executions each), single-threaded try_read/try_write refusal while guards are held, and 100k sequential histories judged by the sequential special case of the property on SharedObservable.', THR_NOTE, 'DESIGN.md section 5, C04'),
+ 'C16': ('obs+async', OBS_TECH + '; differential testing between flavours; hand-rolled executor for histories with guards held across calls', 'The same generated guard-free histories run on both flavours and must give identical transcripts (and equal the model); async-only histories run every async fn as a task of a single-threaded executor under a lock model: nothing completes under a write guard, no writer under a read guard, results equal the model in completion order, and nothing stays pending once no guard is held; owners are SharedObservable (clones, weak references, Default construction, bursts of up to 32 read guards) or a unique Observable; subscribers are cloned/reset and called (get, next_now, read, next_ref_now) also while a poll is outstanding; two finales (guards released first / owners dropped with subscriber-side permits outstanding). Known finding K4 is excluded by its exact trigger.', OBS_NOTE + ' The executor runs every woken task before judging anything stuck (tokio hands permits to queued waiters).', 'DESIGN.md section 5, C16'),
  'C19': ('obs', OBS_TECH, 'All four count functions are compared with the model after every call of generated handle histories, both flavours. Async flavour: subscriber_count/strong_count are accepted only if exact or exactly matching the listed known finding K3 (2 per live subscriber); anything else is a violation.', OBS_NOTE, 'DESIGN.md section 5, C19'),
 })
 CLAIMED = sorted(T)
@@ -72,8 +72,8 @@ m = {
  'engines': [
    {'name': 'vec', 'path': 'harness/src/engine_vec.rs', 'serves_properties': ['C05','C06','C07','C08','C09','C10','C11','C12','C13','C14','C15','C17','C20'], 'kind_free_text': 'proptest state-machine style: generated VecCase histories interpreted against the real library and a plain-Vec model; taps at every adapter boundary; known-finding triggers excluded exactly'},
    {'name': 'obs', 'path': 'harness/src/engine_obs.rs', 'serves_properties': ['C01','C02','C03','C04','C16','C19'], 'kind_free_text': 'generated call histories on observables, both lock flavours, reference model, flag wakers'},
-   {'name': 'async', 'path': 'harness/src/engine_async.rs', 'serves_properties': ['C16'], 'kind_free_text': 'async-lock flavour with guards held across calls, hand-rolled executor, lock model'},
-   {'name': 'thr', 'path': 'harness/src/engine_thr.rs', 'serves_properties': ['C02','C03','C04'], 'kind_free_text': 'real threads: directed schedules at pause points (stateless DFS) and free-running rounds; history checkers'},
+   {'name': 'async', 'path': 'harness/src/engine_async.rs', 'serves_properties': ['C01','C02','C03','C16','C20'], 'kind_free_text': 'async-lock flavour with guards held across calls, hand-rolled executor, lock model'},
+   {'name': 'thr', 'path': 'harness/src/engine_thr.rs', 'serves_properties': ['C01','C02','C03','C04'], 'kind_free_text': 'real threads: directed schedules at pause points (stateless DFS) and free-running rounds; history checkers'},
    {'name': 'pure', 'path': 'harness/src/engine_pure.rs', 'serves_properties': ['C18'], 'kind_free_text': 'proptest + bounded-exhaustive enumeration of (vector, diff, mapping) triples against a plain-Vec reference'},
  ],
  'checks': checks,
